@@ -175,7 +175,24 @@ def word_atoms(text: str, line: int = 1) -> list:
     import re
 
     atoms = []
+    TAGS = {"+": ("project", "PLUS"), "#": ("area", "HASH"), "@": ("context", "AT_SIGN"), "%": ("person", "PERCENT")}
+
+    def idn_of(w: str) -> T:
+        return T("id", kids=[T("priv_id", kids=[Tok("NUM_ID" if w.isdigit() else "ID", w)], line=line)], line=line)
+
     for w in text.split(" "):
+        special = None
+        if len(w) > 1 and w[0] in TAGS and re.fullmatch(r"[A-Za-z0-9_]+", w[1:]):
+            rule, tok = TAGS[w[0]]
+            special = T("tag", kids=[T(rule, kids=[Tok(tok, w[0]), idn_of(w[1:])], line=line)], line=line)
+        elif re.fullmatch(r"[A-Za-z_][A-Za-z0-9_]*::[A-Za-z0-9_]+", w):
+            k, v = w.split("::")
+            special = T("property", kids=[T("simple_prop", kids=[idn_of(k), Tok("COLON", ":"), Tok("COLON", ":"), T("simple_prop_value", kids=[idn_of(v)], line=line)], line=line)], line=line)
+        elif re.fullmatch(r"\[\[[A-Za-z0-9_]+\]\]", w):
+            special = T("link", kids=[Tok("T__0", "[["), T("id_group", kids=[idn_of(w[2:-2])], line=line), Tok("T__1", "]]")], line=line)
+        if special is not None:
+            atoms.append(T("space_atom", kids=[Tok("SPACE", " "), T("atom", kids=[T("word_group", kids=[T("word", kids=[T("unquoted_word", kids=[special])])])])], line=line))
+            continue
         if re.fullmatch(r"[0-9]{4}-[0-9]{2}-[0-9]{2}", w):
             inner: list = [T("date", kids=[Tok("DATE", w)], line=line)]
         elif re.fullmatch(r"[0-9]{6}#[0-9A-Za-z]{2,3}", w):
@@ -206,3 +223,13 @@ def item_tree(prefix: str, body: str, priority: Optional[str] = None, line: int 
         kids += [Tok("SPACE", " "), T("priority", kids=[Tok("PRIORITY", priority)], line=line)]
     kids += [nb, Tok("NL", "\n")]
     return T("item", kids=[T("todo", kids=[T("base_todo", kids=kids, line=line)], line=line)], line=line)
+
+
+def header_tree(level: int, marker: str, text: str, line: int) -> T:
+    """`<marker> text` as h<level>_header : H<level>_HEADER space_atoms eol."""
+    return T(f"h{level}_header", kids=[Tok(f"H{level}_HEADER", marker), T("space_atoms", kids=word_atoms(text, line), line=line), T("eol", kids=[Tok("NL", "\n")], line=line)], line=line)
+
+
+def head_tree(text: str, line: int = 1) -> T:
+    """`# text` as head : comment+ with comment : HASH space_atoms NL."""
+    return T("head", kids=[T("comment", kids=[Tok("HASH", "#"), T("space_atoms", kids=word_atoms(text, line), line=line), Tok("NL", "\n")], line=line)], line=line)
